@@ -344,6 +344,10 @@ pub struct RunCtx {
     pub reopen_count: std::cell::Cell<u32>,
     /// a force_update_active_blob request was issued since the storage was (re)opened
     pub force_update_since_open: std::cell::Cell<bool>,
+    /// a background lifecycle request (close / create / restore / force update) was issued in this
+    /// run: observations of which blob is active may be stale by the time an operation runs (the
+    /// worker can sit on a request for several quiet milliseconds)
+    pub bg_lifecycle_pending: std::cell::Cell<bool>,
     /// keys whose answers differed from the model in the last full comparison, with the record counts at that moment
     pub mismatch_keys_last: RefCell<(BTreeSet<u8>, Vec<(usize, usize)>)>,
     /// the same, frozen when a clean close began (None: records were appended since the comparison)
@@ -524,6 +528,7 @@ where
         served_at_close: RefCell::new(BTreeSet::new()),
         reopen_count: std::cell::Cell::new(0),
         force_update_since_open: std::cell::Cell::new(false),
+        bg_lifecycle_pending: std::cell::Cell::new(false),
         mismatch_keys_last: RefCell::new((BTreeSet::new(), Vec::new())),
         mismatch_before_close: RefCell::new(None),
         acked_before_crash: RefCell::new(BTreeSet::new()),
